@@ -10,7 +10,10 @@ Definition otv_same (a b : option tv) : bool :=
 Definition agrees (c : case) : bool :=
   match c with
   | CPlan calls t => otv_same t (encode GenSerde.s_BuildPlan (v_build_plan (bp_build calls)))
-  | CLaunch calls t rb => otv_same t (encode GenSerde.s_Launch (v_launch (build_launch calls)))
+  | CLaunch calls t rb =>
+      (* serde's PathBuf serializer fails on a path that is not UTF-8: nothing is written *)
+      if launch_representable calls then otv_same t (encode GenSerde.s_Launch (v_launch (build_launch calls)))
+      else match t with None => true | Some _ => false end
   | CDoc k v t rb => otv_same t (encode (gen_schema k) v)
   | CExecd pairs t _ => otv_same t (Some (execd_expected pairs))
   end.
